@@ -98,6 +98,13 @@ static void chunk(std::vector<uint8_t> &o, const std::vector<uint8_t> &t) { o.in
 // of the music data (93 = 0x5D, the smallest the detector accepts; odd, so the IMF detector tried first declines),
 // the signature "rsxx}u" 16 bytes before it, one track without a leading delta time: note A (key 36, channel 0)
 // ticks 0..16, end 24, at 60 ticks per second, no markers, no device-switch meta.
+// The other containers the sequencer sniffs (mirrored by Settings!Song), each with note A (key 36, channel 0) only, one track,
+// no markers:  song 4: GMF ("GMF\x01", 3 header bytes, bare SMF track events from offset 7, the loader appends the end-of-track
+// event itself, so the data ends with its delta time; 192 ticks per quarter);  song 5: DMX MUS ("MUS\x1A", score of three events
+// at 140 ticks per second, converted to SMF by the loader);  song 6: AIL XMIDI (FORM XDIR / CAT XMID with one sequence: note with
+// duration, 120 ticks per second; played in XMIDI mode);  song 7: an id-Software IMF register dump (type 1: 16-bit length, then
+// {register, value, 16-bit delay} records) -- the sniffing accepts it as IMF, the loader parses it and the player refuses it.
+static void tag(std::vector<uint8_t> &o, const char *t) { o.insert(o.end(), t, t + 4); }
 static std::vector<uint8_t> songImage(int s)
 {
     std::vector<uint8_t> o, t0, t1;
@@ -106,6 +113,39 @@ static std::vector<uint8_t> songImage(int s)
         static const uint8_t music[] = { 0x90, 36, 100, 0x10, 0x80, 36, 0, 0x08, 0xFF, 0x2F, 0x00 };
         o.assign(93, 0); o[0] = 93; memcpy(&o[93 - 0x10], "rsxx}u", 6);
         o.insert(o.end(), music, music + sizeof music);
+        return o;
+    }
+    if(s == 4)
+    {
+        static const uint8_t gmf[] = { 'G', 'M', 'F', 0x01, 0, 0, 0,  0x00, 0x90, 36, 100, 0x10, 0x80, 36, 0, 0x08 };
+        o.assign(gmf, gmf + sizeof gmf);
+        return o;
+    }
+    if(s == 5)
+    {
+        // play note 36 volume 100 on MUS channel 0, 16 ticks; release it, 8 ticks; end of score
+        static const uint8_t score[] = { 0x90, 0x80 | 36, 100, 0x10, 0x80, 36, 0x08, 0x60 };
+        tag(o, "MUS\x1A");
+        o.push_back((uint8_t)sizeof score); o.push_back(0); o.push_back(18); o.push_back(0);      // score length, score start
+        o.push_back(1); o.push_back(0); o.push_back(0); o.push_back(0);                          // primary / secondary channels
+        o.push_back(1); o.push_back(0); o.push_back(0); o.push_back(0); o.push_back(0); o.push_back(0);   // one instrument: 0
+        o.insert(o.end(), score, score + sizeof score);
+        return o;
+    }
+    if(s == 6)
+    {
+        static const uint8_t evnt[] = { 0x90, 36, 100, 0x10, 0x18, 0xFF, 0x2F, 0x00 };            // note with duration 16, delay 24, end
+        std::vector<uint8_t> form;
+        tag(form, "FORM"); be(form, 4 + 8 + sizeof evnt, 4); tag(form, "XMID"); tag(form, "EVNT"); be(form, sizeof evnt, 4);
+        form.insert(form.end(), evnt, evnt + sizeof evnt);
+        tag(o, "FORM"); be(o, 4 + 8 + 2, 4); tag(o, "XDIR"); tag(o, "INFO"); be(o, 2, 4); o.push_back(1); o.push_back(0);
+        tag(o, "CAT "); be(o, 4 + form.size(), 4); tag(o, "XMID"); o.insert(o.end(), form.begin(), form.end());
+        return o;
+    }
+    if(s == 7)
+    {
+        o.push_back(0x10); o.push_back(0x00);
+        for(int i = 0; i < 4; ++i) { o.push_back((uint8_t)(0x20 + i)); o.push_back(0x01); o.push_back(0x01); o.push_back(0x00); }
         return o;
     }
     o.insert(o.end(), {'M', 'T', 'h', 'd'}); be(o, 6, 4); be(o, s == 1 ? 1 : 0, 2); be(o, s == 1 ? 2 : 1, 2); be(o, 96, 2);
@@ -161,7 +201,9 @@ static void writeObs(JW &w, Inst &in)
     w.kv("ils", slot((const void *)it->onloopStart, (const void *)&hkLs)); w.kv("ile", slot((const void *)it->onloopEnd, (const void *)&hkLe));
     w.kv("loop", sq.getLoopEnabled() ? 1 : 0); w.kv("ln", sq.getLoopsCount()); w.kv("ho", sq.m_loopHooksOnly ? 1 : 0);
     w.kv("tp", tlcint((long long)llround(sq.getTempoMultiplier() * 1000.0)));
-    w.kv("sg", sq.m_loadTrackNumber);
+    w.kv("sg", sq.m_loadTrackNumber); w.kv("fmt", (int)sq.getFormat());
+    // identity of the loaded song (compared between the instance and its twin only): its length in milliseconds
+    { double tl = opn2_totalTimeLength(dev); w.kv("song", tl < 0 ? -1 : tlcint((long long)llround(tl * 1000.0))); }
     w.kv("solo", sq.m_trackSolo == ~(size_t)0 ? -1 : clampInt(sq.m_trackSolo));
     w.key("td"); w.begin_arr(); for(size_t k = 0; k < sq.m_trackDisable.size() && k < 8; ++k) w.num(sq.m_trackDisable[k] ? 1 : 0); w.end_arr();
     { long long m = 0; for(int k = 0; k < 16; ++k) if(sq.m_channelDisable[k]) m |= (1 << k); w.kv("cd", m); }
@@ -295,6 +337,7 @@ static long long apply(Inst &in, const std::string &e, const JV &c, bool &hasR)
         else if(bad == 2) img.resize(20);                  // header + half a track header
         else if(bad == 3) img.clear();                     // empty
         else if(bad == 4) img[c.get("s", 1) == 3 ? 77 : 15] ^= 0x20;   // MTrk (song 3: rsxx) signature broken
+        else if(bad == 5 && c.get("s", 1) == 7) { }          // the IMF image as it is: a well-formed song of a format the player refuses
         else if(bad == 5)                                   // a well-formed Creative CMF song: parsed, then refused ("OPNMIDI doesn't support CMF")
         {
             img.assign(40, 0);
